@@ -144,14 +144,38 @@ def sany(module):
     return (not bad), p.stdout
 
 
-def validate_trace(module, cfg, tracefile, timeout=600, heap="4g", env=None, dfs=False):
+def validate_trace(module, cfg, tracefile, timeout=600, heap="4g", env=None, dfs=False, explain=True):
     """Trace validation: accepted iff the whole log is a behaviour of the trace spec.
     Returns (accepted: bool, info: TlcResult). Invariant violations inside the trace spec count
-    as rejection too (res.violation says which)."""
+    as rejection too (res.violation says which).  On a rejection the run is repeated with deadlock
+    checking so that the last matched state can be shown next to the rejected log line
+    (res.last_state, res.reject_line)."""
     e = {"TRACEFILE": tracefile}
     if env:
         e.update(env)
     r = run(module, cfg, timeout=timeout, workers=1, heap=heap, env=e, deadlock=False, dfs=dfs)
     m = re.search(r'"TV-REJECT", (\d+), (\d+)', r.out)
     r.reject_at = int(m.group(1)) if m else None
+    r.last_state = ""
+    r.reject_line = ""
+    if not r.ok and r.reject_at and explain:
+        try:
+            r.reject_line = open(tracefile).read().split("\n")[r.reject_at - 1]
+        except Exception:
+            pass
+        try:
+            c = open(os.path.join(SPEC, cfg if cfg.endswith(".cfg") else cfg + ".cfg")).read()
+            c = re.sub(r"POSTCONDITION\s+\S+", "", c)
+            c = re.sub(r"CHECK_DEADLOCK\s+FALSE", "CHECK_DEADLOCK TRUE", c)
+            tmpcfg = os.path.join(SPEC, "_explain_%d.cfg" % os.getpid())
+            open(tmpcfg, "w").write(c)
+            try:
+                r2 = run(module, os.path.basename(tmpcfg), timeout=timeout, workers=1, heap=heap, env=e)
+                t = r2.violation["text"] if r2.violation else ""
+                i = t.rfind("\nState ")
+                r.last_state = t[i:i + 6000] if i >= 0 else ""
+            finally:
+                os.remove(tmpcfg)
+        except Exception as ex:
+            r.last_state = "(no explanation: %s)" % ex
     return r.ok, r
